@@ -1,5 +1,5 @@
 """Property -> rule families.  Each entry is a list of callables taking the Run context."""
-import rf_alloc, rf_state, rf_tables, rf_sig, rf_union, rf_flow, rf_vocab, rf_mir2c
+import rf_alloc, rf_state, rf_tables, rf_sig, rf_union, rf_flow, rf_vocab, rf_mir2c, rf_code
 from lib import facts as F
 
 
@@ -120,6 +120,11 @@ def c10_vocab(run):
     run.min_instances('RF7c', 30)
 
 
+def c17_rf4(run):
+    rf_code.rf4(run)
+    run.min_instances('RF4', 15)
+
+
 PLAN = {
     'C10': [c10_rf6, c10_vocab],
     'C11': [c11_rf6, c11_vocab],
@@ -127,5 +132,5 @@ PLAN = {
     'C20': [c20_rf8, c20_rf6, c20_rf21],
     'C15': [c15_rf17, c15_rf16h],
     'C18': [c18_rf5],
-    'C17': [c17_rf1, c17_rf3],
+    'C17': [c17_rf1, c17_rf3, c17_rf4],
 }
